@@ -17,7 +17,149 @@ package keeper
 //@   ensures ordered_ok: err == nil && ord == types.ORDERED ==> get(S0, host.NextSequenceRecvKey(P, C)) != "" && unbe64(get(S0, host.NextSequenceRecvKey(P, C))) == s && store(ctx) == set(S0, host.NextSequenceRecvKey(P, C), be64((s + 1) % 18446744073709551616))
 //@   ensures ok_ordering: err == nil ==> ord == types.UNORDERED || ord == types.ORDERED
 //@   ensures fail_unchanged: err != nil ==> world(ctx) == old(world(ctx))
-//@   ensures noop_received: err == types.ErrNoOpMsg ==> received1(S0, ord, P, C, s)
+//@   ensures noop_received: errIs(err, types.ErrNoOpMsg) ==> received1(S0, ord, P, C, s)
 //@   ensures ok_fresh: err == nil ==> !received1(S0, ord, P, C, s)
 //@   ensures ok_received: err == nil && s + 1 < 18446744073709551616 ==> received1(store(ctx), ord, P, C, s)
 //@   ensures only_store: err == nil ==> world(ctx) == withKV(old(world(ctx)), k.storeService, store(ctx))
+
+//@ contract (*Keeper).RecvPacket
+//@   let P = packet.DestinationPort
+//@   let C = packet.DestinationChannel
+//@   let s = packet.Sequence
+//@   let S0 = store(ctx)
+//@   let ch = k.GetChannel(ctx, P, C)
+//@   let found = nth(k.GetChannel(ctx, P, C), 1)
+//@   let conn = connOf(world(ctx), ch.ConnectionHops[0])
+//@   let selfH = clienttypes.GetSelfHeight(ctx)
+//@   let selfT = blocktime(ctx) % 18446744073709551616
+//@   modifies world(ctx)
+//@   ensures channel_open: err == nil ==> found && ch.State == types.OPEN
+//@   ensures counterparty: err == nil ==> packet.SourcePort == ch.Counterparty.PortId && packet.SourceChannel == ch.Counterparty.ChannelId
+//@   ensures connection_open: err == nil ==> hasConn(old(world(ctx)), ch.ConnectionHops[0]) && conn.State == connectiontypes.OPEN
+//@   ensures not_elapsed: err == nil ==> !types.NewTimeout(packet.TimeoutHeight, packet.TimeoutTimestamp).Elapsed(selfH, selfT)
+//@   ensures proven: err == nil ==> ProvenCommitment(conn, proofHeight, packet.SourcePort, packet.SourceChannel, s, types.CommitPacket(packet))
+//@   ensures fresh: err == nil ==> !received1(S0, ch.Ordering, P, C, s)
+//@   ensures unordered_frame: err == nil && ch.Ordering == types.UNORDERED ==> store(ctx) == set(S0, host.PacketReceiptKey(P, C, s), str(1))
+//@   ensures ordered_frame: err == nil && ch.Ordering == types.ORDERED ==> unbe64(get(S0, host.NextSequenceRecvKey(P, C))) == s && store(ctx) == set(S0, host.NextSequenceRecvKey(P, C), be64((s + 1) % 18446744073709551616))
+//@   ensures only_store: err == nil ==> world(ctx) == withKV(old(world(ctx)), k.storeService, store(ctx))
+//@   ensures version: err == nil ==> result0 == ch.Version
+//@   ensures fail_unchanged: err != nil ==> world(ctx) == old(world(ctx))
+//@   ensures noop_received: errIs(err, types.ErrNoOpMsg) ==> received1(S0, ch.Ordering, P, C, s)
+
+//@ contract (*Keeper).SendPacket
+//@   let S0 = store(ctx)
+//@   let ch = k.GetChannel(ctx, sourcePort, sourceChannel)
+//@   let found = nth(k.GetChannel(ctx, sourcePort, sourceChannel), 1)
+//@   let seqRaw = get(S0, hostv2.NextSequenceSendKey(sourceChannel))
+//@   let seq0 = unbe64(seqRaw)
+//@   let conn = connOf(world(ctx), ch.ConnectionHops[0])
+//@   let pkt = types.NewPacket(data, seq0, sourcePort, sourceChannel, ch.Counterparty.PortId, ch.Counterparty.ChannelId, timeoutHeight, timeoutTimestamp)
+//@   let lh = clientLatestHeight(world(ctx), conn.ClientId)
+//@   modifies world(ctx)
+//@   ensures seq: err == nil ==> result0 == seq0 && seqRaw != ""
+//@   ensures frame: err == nil ==> store(ctx) == set(set(S0, hostv2.NextSequenceSendKey(sourceChannel), be64((seq0 + 1) % 18446744073709551616)), host.PacketCommitmentKey(sourcePort, sourceChannel, seq0), types.CommitPacket(pkt))
+//@   ensures only_store: err == nil ==> world(ctx) == withKV(old(world(ctx)), k.storeService, store(ctx))
+//@   ensures channel_open: err == nil ==> found && ch.State == types.OPEN
+//@   ensures client_active: err == nil ==> hasConn(old(world(ctx)), ch.ConnectionHops[0]) && clientStatus(old(world(ctx)), conn.ClientId) == exported.Active
+//@   ensures nonzero_height: err == nil ==> !(lh.RevisionNumber == 0 && lh.RevisionHeight == 0)
+//@   ensures not_elapsed: err == nil ==> clientTimestampErr(old(world(ctx)), conn.ClientId, box(lh)) == nil && !types.NewTimeout(timeoutHeight, timeoutTimestamp).Elapsed(lh, clientTimestampAt(old(world(ctx)), conn.ClientId, box(lh)))
+//@   ensures fail_unchanged: err != nil ==> world(ctx) == old(world(ctx))
+
+//@ contract (*Keeper).WriteAcknowledgement
+//@   let pk = dyn(packet, types.Packet)
+//@   let P = pk.DestinationPort
+//@   let C = pk.DestinationChannel
+//@   let s = pk.Sequence
+//@   let S0 = store(ctx)
+//@   let ch = k.GetChannel(ctx, P, C)
+//@   let found = nth(k.GetChannel(ctx, P, C), 1)
+//@   requires isType(packet, types.Packet)
+//@   modifies world(ctx)
+//@   ensures channel_open: err == nil ==> found && ch.State == types.OPEN
+//@   ensures write_once: err == nil ==> !has(S0, host.PacketAcknowledgementKey(P, C, s))
+//@   ensures nonempty: err == nil ==> acknowledgement != nil && get(store(ctx), host.PacketAcknowledgementKey(P, C, s)) != ""
+//@   ensures frame: err == nil ==> store(ctx) == set(S0, host.PacketAcknowledgementKey(P, C, s), get(store(ctx), host.PacketAcknowledgementKey(P, C, s))) && len(get(store(ctx), host.PacketAcknowledgementKey(P, C, s))) == 32
+//@   ensures only_store: err == nil ==> world(ctx) == withKV(old(world(ctx)), k.storeService, store(ctx))
+//@   ensures exists_error: has(S0, host.PacketAcknowledgementKey(P, C, s)) ==> err != nil
+//@   ensures fail_unchanged: err != nil ==> world(ctx) == old(world(ctx))
+
+//@ contract (*Keeper).AcknowledgePacket
+//@   let P = packet.SourcePort
+//@   let C = packet.SourceChannel
+//@   let s = packet.Sequence
+//@   let S0 = store(ctx)
+//@   let ch = k.GetChannel(ctx, P, C)
+//@   let found = nth(k.GetChannel(ctx, P, C), 1)
+//@   let conn = connOf(world(ctx), ch.ConnectionHops[0])
+//@   let ckey = host.PacketCommitmentKey(P, C, s)
+//@   modifies world(ctx)
+//@   ensures channel_open: err == nil ==> found && ch.State == types.OPEN
+//@   ensures counterparty: err == nil ==> packet.DestinationPort == ch.Counterparty.PortId && packet.DestinationChannel == ch.Counterparty.ChannelId
+//@   ensures connection_open: err == nil ==> hasConn(old(world(ctx)), ch.ConnectionHops[0]) && conn.State == connectiontypes.OPEN
+//@   ensures committed: err == nil ==> get(S0, ckey) != "" && get(S0, ckey) == types.CommitPacket(packet)
+//@   ensures proven: err == nil ==> ProvenAck(conn, proofHeight, packet.DestinationPort, packet.DestinationChannel, s, acknowledgement)
+//@   ensures unordered_frame: err == nil && ch.Ordering != types.ORDERED ==> store(ctx) == del(S0, ckey)
+//@   ensures ordered_frame: err == nil && ch.Ordering == types.ORDERED ==> unbe64(get(S0, host.NextSequenceAckKey(P, C))) == s && get(S0, host.NextSequenceAckKey(P, C)) != "" && store(ctx) == del(set(S0, host.NextSequenceAckKey(P, C), be64((s + 1) % 18446744073709551616)), ckey)
+//@   ensures only_store: err == nil ==> world(ctx) == withKV(old(world(ctx)), k.storeService, store(ctx))
+//@   ensures commitment_gone: err == nil ==> !has(store(ctx), ckey)
+//@   ensures noop_absent: errIs(err, types.ErrNoOpMsg) ==> get(S0, ckey) == ""
+//@   ensures absent_noop: found && ch.State == types.OPEN && get(S0, ckey) == "" ==> err != nil
+//@   ensures fail_unchanged: err != nil ==> world(ctx) == old(world(ctx))
+
+//@ contract (*Keeper).timeoutExecuted
+//@   let P = packet.SourcePort
+//@   let C = packet.SourceChannel
+//@   let s = packet.Sequence
+//@   let S0 = store(ctx)
+//@   modifies world(ctx)
+//@   ensures err == nil
+//@   ensures unordered_frame: channel.Ordering != types.ORDERED ==> store(ctx) == del(S0, host.PacketCommitmentKey(P, C, s))
+//@   ensures ordered_closed: channel.Ordering == types.ORDERED ==> nth(k.GetChannel(ctx, P, C), 1) && k.GetChannel(ctx, P, C).State == types.CLOSED && k.GetChannel(ctx, P, C).Ordering == channel.Ordering
+//@   ensures ordered_frame: channel.Ordering == types.ORDERED ==> store(ctx) == set(del(S0, host.PacketCommitmentKey(P, C, s)), host.ChannelKey(P, C), get(store(ctx), host.ChannelKey(P, C)))
+//@   ensures only_store: world(ctx) == withKV(old(world(ctx)), k.storeService, store(ctx))
+//@   ensures commitment_gone: !has(store(ctx), host.PacketCommitmentKey(P, C, s))
+
+//@ contract (*Keeper).TimeoutPacket
+//@   let P = packet.SourcePort
+//@   let C = packet.SourceChannel
+//@   let s = packet.Sequence
+//@   let S0 = store(ctx)
+//@   let ch = k.GetChannel(ctx, P, C)
+//@   let found = nth(k.GetChannel(ctx, P, C), 1)
+//@   let conn = connOf(world(ctx), ch.ConnectionHops[0])
+//@   let ckey = host.PacketCommitmentKey(P, C, s)
+//@   let pts = clientTimestampAt(world(ctx), conn.ClientId, proofHeight)
+//@   requires isType(proofHeight, clienttypes.Height)
+//@   modifies world(ctx)
+//@   ensures counterparty: err == nil ==> found && packet.DestinationPort == ch.Counterparty.PortId && packet.DestinationChannel == ch.Counterparty.ChannelId
+//@   ensures elapsed: err == nil ==> clientTimestampErr(old(world(ctx)), conn.ClientId, proofHeight) == nil && types.NewTimeout(packet.TimeoutHeight, packet.TimeoutTimestamp).Elapsed(dyn(proofHeight, clienttypes.Height), pts)
+//@   ensures committed: err == nil ==> get(S0, ckey) != "" && get(S0, ckey) == types.CommitPacket(packet)
+//@   ensures proven_unordered: err == nil && ch.Ordering == types.UNORDERED ==> ProvenReceiptAbsence(conn, proofHeight, packet.DestinationPort, packet.DestinationChannel, s)
+//@   ensures proven_ordered: err == nil && ch.Ordering == types.ORDERED ==> nextSequenceRecv <= s && ProvenNextSeqRecv(conn, proofHeight, packet.DestinationPort, packet.DestinationChannel, nextSequenceRecv)
+//@   ensures ordering: err == nil ==> ch.Ordering == types.UNORDERED || ch.Ordering == types.ORDERED
+//@   ensures commitment_gone: err == nil ==> !has(store(ctx), ckey)
+//@   ensures unordered_frame: err == nil && ch.Ordering == types.UNORDERED ==> store(ctx) == del(S0, ckey)
+//@   ensures ordered_closed: err == nil && ch.Ordering == types.ORDERED ==> k.GetChannel(ctx, P, C).State == types.CLOSED
+//@   ensures only_store: err == nil ==> world(ctx) == withKV(old(world(ctx)), k.storeService, store(ctx))
+//@   ensures noop_absent: errIs(err, types.ErrNoOpMsg) ==> get(S0, ckey) == ""
+//@   ensures fail_unchanged: err != nil ==> world(ctx) == old(world(ctx))
+
+//@ contract (*Keeper).TimeoutOnClose
+//@   let P = packet.SourcePort
+//@   let C = packet.SourceChannel
+//@   let s = packet.Sequence
+//@   let S0 = store(ctx)
+//@   let ch = k.GetChannel(ctx, P, C)
+//@   let found = nth(k.GetChannel(ctx, P, C), 1)
+//@   let conn = connOf(world(ctx), ch.ConnectionHops[0])
+//@   let ckey = host.PacketCommitmentKey(P, C, s)
+//@   modifies world(ctx)
+//@   ensures counterparty: err == nil ==> found && packet.DestinationPort == ch.Counterparty.PortId && packet.DestinationChannel == ch.Counterparty.ChannelId
+//@   ensures committed: err == nil ==> get(S0, ckey) != "" && get(S0, ckey) == types.CommitPacket(packet)
+//@   ensures closed_proven: err == nil ==> ProvenChannelState(conn, proofHeight, ch.Counterparty.PortId, ch.Counterparty.ChannelId, types.NewChannel(types.CLOSED, ch.Ordering, types.NewCounterparty(P, C), strings1(conn.Counterparty.ConnectionId), ch.Version))
+//@   ensures proven_unordered: err == nil && ch.Ordering == types.UNORDERED ==> ProvenReceiptAbsence(conn, proofHeight, packet.DestinationPort, packet.DestinationChannel, s)
+//@   ensures proven_ordered: err == nil && ch.Ordering == types.ORDERED ==> nextSequenceRecv <= s && ProvenNextSeqRecv(conn, proofHeight, packet.DestinationPort, packet.DestinationChannel, nextSequenceRecv)
+//@   ensures commitment_gone: err == nil ==> !has(store(ctx), ckey)
+//@   ensures ordered_closed: err == nil && ch.Ordering == types.ORDERED ==> k.GetChannel(ctx, P, C).State == types.CLOSED
+//@   ensures noop_absent: errIs(err, types.ErrNoOpMsg) ==> get(S0, ckey) == ""
+//@   ensures fail_unchanged: err != nil ==> world(ctx) == old(world(ctx))
